@@ -34,7 +34,7 @@ KINDS = {'StaticNet': 'static', 'RandomNet': 'random', 'ErdosRenyiNet': 'erdos',
 PARTNERSHIP = ('mf', 'msm', 'embedding')
 COLS = ('p1', 'p2', 'beta', 'dur', 'acts', 'start', 'end')
 LEANCOL = dict(p1='p1', p2='p2', beta='beta', dur='dur', acts='acts', start='start', end='stop')
-KEYS = dict(static=('p1', 'p2', 'beta'), disk=('p1', 'p2', 'beta'), null=('p1', 'p2', 'beta'),
+KEYS = dict(randomplain=('p1', 'p2', 'beta', 'dur'), static=('p1', 'p2', 'beta'), disk=('p1', 'p2', 'beta'), null=('p1', 'p2', 'beta'),
             random=('p1', 'p2', 'beta', 'dur'), erdos=('p1', 'p2', 'beta', 'dur'),
             mf=('p1', 'p2', 'beta', 'dur', 'acts'), msm=('p1', 'p2', 'beta', 'dur', 'acts'),
             embedding=('p1', 'p2', 'beta', 'dur', 'acts'), maternal=('p1', 'p2', 'beta', 'dur', 'start', 'end'))
@@ -42,6 +42,32 @@ KEYS = dict(static=('p1', 'p2', 'beta'), disk=('p1', 'p2', 'beta'), null=('p1', 
 
 # ---------------------------------------------------------------------------
 # configurations
+
+def fixed_families(rng):
+    """ Scenario families exercised on EVERY run (quantifier of the property: every class, births+deaths+pregnancy, all
+        duration/contact parameters): networks on their own dt (finer and coarser than the sim's), constant-size churn
+        (one agent dies and one joins every step), explicit-uid mixing pools, plain-number n_contacts, long histories. """
+    seed = lambda: rng.randint(0, 9999)
+    base = lambda **kw: dict(dict(n_agents=40, rand_seed=seed(), dt=1.0, start=2000, dur=8.0, demographics=[], disease='sis'), **kw)
+    fam = []
+    swap = [dict(type='swap', k=1)]
+    fam.append(('disk-swap', base(networks=[dict(type='disk', r=0.25, v=0.1)], demographics=swap, dur=6.0)))
+    fam.append(('erdos-swap', base(networks=[dict(type='erdos', p=0.08, dur=2.5)], demographics=swap, dur=6.0)))
+    fam.append(('static-random-swap', base(networks=[dict(type='static', n_contacts=4), dict(type='random', n_contacts=4, dur=3.5)], demographics=swap, dur=6.0)))
+    fam.append(('random-own-dt-finer', base(networks=[dict(type='random', n_contacts=4, dur=1.3, net_dt=0.5)], demographics=[dict(type='deaths', death_rate=80)], dur=5.0)))
+    fam.append(('random-own-dt-coarser', base(dt=0.5, networks=[dict(type='random', n_contacts=2, dur=2.5, net_dt=1.0)], dur=5.0)))
+    fam.append(('mf-own-dt-finer', base(networks=[dict(type='mf', duration=1.7, debut=16, participation=0.9, net_dt=0.25)], demographics=[dict(type='deaths', death_rate=80)], dur=4.0)))
+    fam.append(('erdos-own-dt-finer', base(networks=[dict(type='erdos', p=0.05, dur=0.8, net_dt=0.25)], dur=3.0)))
+    fam.append(('msm-embedding-long', base(n_agents=60, dt=0.25, networks=[dict(type='msm', duration=0.6, debut=16, participation=1.0), dict(type='embedding', duration=0.9, debut=16, participation=0.9)],
+                                           demographics=[dict(type='deaths', death_rate=120)], dur=5.0)))
+    fam.append(('pool-explicit', base(networks=[dict(type='pool', src=list(range(0, 12)), dst=list(range(8, 30)))], demographics=[dict(type='deaths', death_rate=250)], dur=6.0)))
+    fam.append(('pools-explicit', base(networks=[dict(type='pools', groups=[list(range(0, 15)), list(range(15, 40))]), dict(type='random', n_contacts=2, dur=0)],
+                                       demographics=[dict(type='deaths', death_rate=250)], dur=6.0)))
+    fam.append(('random-plain-contacts', base(networks=[dict(type='random', n_contacts=4, dur=0, plain=True)],
+                                              demographics=[dict(type='pregnancy', fertility_rate=600, p_maternal_death=0, p_neonatal_death=0, burnin=True, dur_postpartum=0.3),
+                                                            dict(type='deaths', death_rate=250)], dur=5.0)))
+    return fam
+
 
 def gen_cfg(rng, force_net=None, thorough=False):
     dt = rng.choice([1.0, 0.5, 0.25, 1 / 12])
@@ -70,6 +96,9 @@ def gen_cfg(rng, force_net=None, thorough=False):
             nets.append(dict(type='maternal'))
         elif nm == 'prepost':
             nets.append(dict(type='prenatal')); nets.append(dict(type='postnatal'))
+    for n in nets:   # a third of the dynamic networks run on their own, finer or coarser, timestep
+        if n['type'] in ('random', 'erdos', 'mf', 'msm', 'embedding') and rng.random() < 0.35:
+            n['net_dt'] = dt * rng.choice([0.5, 0.25, 2.0])
     cfg['networks'] = nets
     need_preg = any(n['type'] in ('maternal', 'prenatal', 'postnatal') for n in nets)
     dem = []
@@ -81,9 +110,34 @@ def gen_cfg(rng, force_net=None, thorough=False):
                         dur_postpartum=rng.choice([0.3, 0.6])))
     elif rng.random() < 0.3:
         dem.append(dict(type='births', birth_rate=rng.choice([30, 90])))
+    if rng.random() < 0.25:
+        dem.append(dict(type='swap', k=rng.choice([1, 2])))
     cfg['demographics'] = dem
     cfg['disease'] = rng.choice(['sis', 'sir_death', 'sir_death'])
     return cfg
+
+
+def make_swap(k):
+    """ A demographics module that keeps the population size constant while changing its membership: every step it asks
+        `k` living agents to die (carried out and removed at the end of the step) and adds `k` new ones. """
+    import starsim as ss
+
+    class Swap(ss.Demographics):
+        def __init__(self, k=1):
+            super().__init__()
+            self.k = k
+            self.pick = ss.random(name='swap_pick')
+
+        def step(self):
+            ppl = self.sim.people
+            au = ppl.auids[ppl.alive[ppl.auids]] if hasattr(ppl.alive, '__getitem__') else ppl.auids
+            r = self.pick.rvs(au)
+            victims = au[np.argsort(r)[:self.k]]
+            ppl.request_death(ss.uids(victims))
+            new = ppl.grow(self.k)
+            ppl.age[new] = 5.0
+            return new
+    return Swap(k)
 
 
 def build_sim(cfg, probe=None):
@@ -91,16 +145,25 @@ def build_sim(cfg, probe=None):
     nets = []
     for n in cfg['networks']:
         t = n['type']
+        own = dict(dt=n['net_dt']) if n.get('net_dt') else {}
         if t == 'random':
             nc = n['n_contacts']; nc = ss.poisson(lam=nc[1]) if isinstance(nc, (tuple, list)) else nc
             d = n['dur']; d = ss.lognorm_ex(mean=d[1], std=d[2]) if isinstance(d, (tuple, list)) else d
-            nets.append(ss.RandomNet(n_contacts=nc, dur=d))
+            net = ss.RandomNet(n_contacts=nc, dur=d, **own)
+            if n.get('plain'):
+                net.pars['n_contacts'] = n['n_contacts']   # a plain number stored on the parameter object itself
+            nets.append(net)
         elif t in ('mf', 'msm', 'embedding'):
             cls = dict(mf=ss.MFNet, msm=ss.MSMNet, embedding=ss.EmbeddingNet)[t]
             nets.append(cls(duration=ss.lognorm_ex(mean=n['duration'], std=0.5 * n['duration']),
-                            debut=ss.normal(loc=n['debut'], scale=2), participation=ss.bernoulli(p=n['participation'])))
+                            debut=ss.normal(loc=n['debut'], scale=2), participation=ss.bernoulli(p=n['participation']), **own))
         elif t == 'erdos':
-            nets.append(ss.ErdosRenyiNet(p=n['p'], dur=n['dur']))
+            nets.append(ss.ErdosRenyiNet(p=n['p'], dur=n['dur'], **own))
+        elif t == 'pool':
+            nets.append(ss.MixingPool(src=ss.uids(n['src']), dst=ss.uids(n['dst']), beta=ss.beta(0.1)))
+        elif t == 'pools':
+            g = {f'g{i}': ss.uids(u) for i, u in enumerate(n['groups'])}
+            nets.append(ss.MixingPools(src=dict(g), dst=dict(g), beta=ss.beta(0.1)))
         elif t == 'disk':
             nets.append(ss.DiskNet(r=n['r'], v=n['v']))
         elif t == 'static':
@@ -119,6 +182,8 @@ def build_sim(cfg, probe=None):
             dem.append(ss.Deaths(death_rate=d['death_rate']))
         elif d['type'] == 'births':
             dem.append(ss.Births(birth_rate=d['birth_rate']))
+        elif d['type'] == 'swap':
+            dem.append(make_swap(d['k']))
         elif d['type'] == 'pregnancy':
             kw = dict(fertility_rate=d['fertility_rate'], burnin=d['burnin'])
             if d.get('p_maternal_death'): kw['p_maternal_death'] = ss.bernoulli(d['p_maternal_death'])
@@ -171,10 +236,32 @@ def make_probe():
             sim = self.sim
             ps = people_of(sim)
             for name, net in sim.networks.items():
-                if not isinstance(net, ss.Network): continue
-                self.snaps.append(dict(ti=int(sim.ti), net=name, cls=type(net).__name__, table=table_of(net), people=ps,
-                                       netstate=netstate_of(net, ps)))
+                if isinstance(net, ss.Network):
+                    snap = dict(op='snap', ti=int(sim.ti), net=name, cls=type(net).__name__, table=table_of(net), people=ps,
+                                netstate=netstate_of(net, ps))
+                elif isinstance(net, (ss.MixingPool, ss.MixingPools)):
+                    snap = dict(op='snap', ti=int(sim.ti), net=name, cls=type(net).__name__, groups=pool_groups(net), people=ps)
+                else:
+                    continue
+                self.snaps.append(snap)
+                if _ACTIVE: _ACTIVE[-1].events.append(snap)
     return Probe()
+
+
+_ACTIVE = []   # the Recorder currently installed (the probe writes its snapshots into the same ordered event list)
+
+
+def pool_groups(route):
+    """ explicit-uid groups of a MixingPool / MixingPools: {label: [uids]} """
+    import starsim as ss
+    pools = route.pools if isinstance(route, ss.MixingPools) else [route]
+    out = {}
+    for i, mp in enumerate(pools):
+        for key in ('src', 'dst'):
+            g = mp.pars[key]
+            if isinstance(g, ss.uids):
+                out[f'{mp.name}#{i}.{key}'] = [int(u) for u in g]
+    return out
 
 
 class Recorder:
@@ -189,6 +276,7 @@ class Recorder:
         N = ss.networks
         rec = self
         self.saved = []
+        _ACTIVE.append(self)
 
         def patch(cls, name, wrapper):
             orig = cls.__dict__[name]
@@ -254,7 +342,18 @@ class Recorder:
                 sim = sim_of(self)
                 pre = table_of(self); ps = people_of(sim)
                 out = orig(self)
-                rec.events.append(dict(op='diskadd', net=self.name, cls=type(self).__name__, pre=pre, people=ps, netstate={}, post=table_of(self)))
+                n = ps['n']
+                rec.events.append(dict(op='diskadd', net=self.name, cls=type(self).__name__, pre=pre, people=ps, netstate={}, post=table_of(self),
+                                       x=np.asarray(self.x.raw[:n], dtype=float).copy(), y=np.asarray(self.y.raw[:n], dtype=float).copy(), r=float(self.pars.r)))
+                return out
+            return f
+
+        def w_poolrm(orig):
+            def f(self, uids):
+                pre = pool_groups(self)
+                out = orig(self, uids)
+                rec.events.append(dict(op='poolrm', net=self.name, cls=type(self).__name__, pre=pre, uids=np.asarray(uids).astype(int).copy(),
+                                       post=pool_groups(self)))
                 return out
             return f
 
@@ -264,11 +363,13 @@ class Recorder:
         patch(N.Network, 'remove_uids', w_rm)
         patch(N.MaternalNet, 'step', w_matstep)
         patch(N.DiskNet, 'add_pairs', w_disk)
+        patch(N.MixingPool, 'remove_uids', w_poolrm)
         return self
 
     def __exit__(self, *a):
         for cls, name, orig in reversed(self.saved):
             setattr(cls, name, orig)
+        if self in _ACTIVE: _ACTIVE.remove(self)
 
 
 def run_recorded(cfg):
@@ -277,6 +378,9 @@ def run_recorded(cfg):
         sim = build_sim(cfg, probe)
         sim.init()
         sim.run()
+    plain = set(net.name for net, n in zip(sim.networks.values(), cfg['networks']) if n.get('plain')) if len(sim.networks) == len(cfg['networks']) else set()
+    for ev in rec.events:
+        if ev.get('net') in plain: ev['plain'] = True
     return sim, rec.events, sim.interventions[0].snaps
 
 
@@ -350,11 +454,22 @@ def compare_table(model_line, obs_tab, kind, tol_dur=0.0):
     return None
 
 
+def kind_of(ev):
+    k = KINDS.get(ev['cls'])
+    if k == 'random' and ev.get('plain'): return 'randomplain'
+    return k
+
+
 def event_lines(ev, variant_of):
     """ protocol line(s) for one recorded event -> list of (line, checker(model_line) -> None | str) """
+    if ev['op'] == 'poolrm':
+        return pool_lines(ev)
+    if ev['op'] == 'snap':
+        return []
     kind = KINDS.get(ev['cls'])
     if kind is None:
         return []
+    akind = kind_of(ev)
     out = []
     op = ev['op']
     if op == 'end':
@@ -383,9 +498,21 @@ def event_lines(ev, variant_of):
             return None
         out.append((line, chk))
         if kind in ('random', 'erdos', 'mf', 'msm', 'embedding') and ev['people'] is not None and not ev['err']:
-            out.append(accept_line(ev, kind, new.get('p1', []), new.get('p2', []), new.get('dur', []), new.get('acts', []), variant_of))
+            out.append(accept_line(ev, akind, new.get('p1', []), new.get('p2', []), new.get('dur', []), new.get('acts', []), variant_of))
     elif op == 'diskadd':
         out.append(accept_line(ev, kind, ev['post']['p1'], ev['post']['p2'], [], [], variant_of))
+    return out
+
+
+def pool_lines(ev):
+    out = []
+    for key, members in ev['pre'].items():
+        line = ' '.join(['poolrm', 'kind=null', 'uids=' + lst(ev['uids']), 'a=' + lst(members)])
+        def chk(ml, key=key, ev=ev):
+            exp = ev['post'].get(key)
+            got = [] if ml in ('ok -', 'ok') else [int(x) for x in ml.split()[1].split(',')]
+            return None if (ml.startswith('ok') and got == list(exp)) else f'MixingPool group {key}: model {ml[:100]} vs observed {exp}'
+        out.append((line, chk))
     return out
 
 
@@ -426,7 +553,16 @@ def table_kv_ragged(tab, kind):
 def oracle_snapshot(s, removed_ever):
     """ invariants on one transmission-phase snapshot -> list of (signature, what) """
     fails = []
-    cls = s['cls']; kind = KINDS.get(cls); tab = s['table']
+    cls = s['cls']
+    if 'groups' in s:   # a Route that is not a Network (MixingPool / MixingPools): explicit-uid groups must be active agents
+        au = set(int(u) for u in s['people']['auids'])
+        for key, members in s['groups'].items():
+            gone = sorted(set(members) - au)
+            if gone:
+                fails.append((dict(oracle='pool-members-active', network=cls),
+                              f"{cls} at ti={s['ti']}: group {key} still lists removed agent(s) {gone[:5]}"))
+        return fails
+    kind = KINDS.get(cls); tab = s['table']
     if kind is None: return fails
     n = len(tab['p1'])
     for k in KEYS[kind]:
@@ -438,7 +574,7 @@ def oracle_snapshot(s, removed_ever):
     ends = [int(u) for u in tab['p1']] + [int(u) for u in tab['p2']]
     bad = sorted(set(u for u in ends if u not in au))
     if bad:
-        fails.append((dict(oracle='endpoints-active', network=cls),
+        fails.append((dict(oracle='endpoints-active', network=cls, _agents=bad),
                       f"{cls} at ti={s['ti']} (transmission phase): {len(bad)} edge endpoint(s) are not active agents, e.g. uid {bad[:5]} (auids has {len(au)} agents)"))
     dead = sorted(set(u for u in ends if u in au and u not in alive))
     if dead:
@@ -455,6 +591,31 @@ def oracle_events(events, snaps, cfg):
     # (a) removed agents vanish: after remove_uids no edge touches them
     for ev in events:
         cls = ev['cls']
+        if ev['op'] == 'poolrm':
+            gone = set(int(u) for u in ev['uids'])
+            for key, members in ev['post'].items():
+                if gone & set(members):
+                    fails.append((dict(oracle='removed-vanish', network=cls), f'{cls}.remove_uids: group {key} still lists {sorted(gone & set(members))[:5]}'))
+                if set(members) != set(ev['pre'].get(key, [])) - gone:
+                    fails.append((dict(oracle='removed-only', network=cls), f'{cls}.remove_uids: group {key} lost or gained agents other than the removed ones'))
+        if ev['op'] == 'diskadd' and 'x' in ev:
+            au = [int(u) for u in ev['people']['auids']]
+            x, y, r = ev['x'], ev['y'], ev['r']
+            exp = set()
+            for i in range(len(au)):
+                for j in range(i + 1, len(au)):
+                    d2 = (x[au[j]] - x[au[i]]) ** 2 + (y[au[j]] - y[au[i]]) ** 2
+                    if abs(d2 - r * r) > 1e-12 and d2 < r * r: exp.add((au[i], au[j]))
+            near = set()
+            for i in range(len(au)):
+                for j in range(i + 1, len(au)):
+                    d2 = (x[au[j]] - x[au[i]]) ** 2 + (y[au[j]] - y[au[i]]) ** 2
+                    if abs(d2 - r * r) <= 1e-12: near.add((au[i], au[j]))
+            got = set(zip([int(u) for u in ev['post']['p1']], [int(u) for u in ev['post']['p2']]))
+            if (got - near) != exp:
+                miss = sorted(exp - got); extra = sorted(got - exp - near)
+                fails.append((dict(oracle='disk-rule', network=cls),
+                              f'{cls}.add_pairs: edges differ from "all pairs of active agents within r={r}": missing {miss[:4]} ({len(miss)}), extra {extra[:4]} ({len(extra)})'))
         if ev['op'] == 'rm':
             gone = set(int(u) for u in ev['uids'])
             left = [int(u) for u in ev['post']['p1']] + [int(u) for u in ev['post']['p2']]
@@ -499,7 +660,7 @@ def oracle_events(events, snaps, cfg):
     # (b) static networks only shrink, and only through death
     by_net = {}
     for s in snaps:
-        by_net.setdefault(s['net'], []).append(s)
+        if 'table' in s: by_net.setdefault(s['net'], []).append(s)
     for name, ss_ in by_net.items():
         if KINDS.get(ss_[0]['cls']) != 'static': continue
         for prev, cur in zip(ss_, ss_[1:]):
@@ -552,60 +713,52 @@ def oracle_random_degree(ev, cls, cfg):
         fails.append((dict(oracle='random-degree', network=cls), f'{cls}.add_pairs: agent {u} has {c1.get(u, 0)} outgoing and {c2.get(u, 0)} incoming half-edges'))
     extra = sorted(set(c1) - set(born))
     if extra:
-        fails.append((dict(oracle='random-degree-eligible', network=cls), f'{cls}.add_pairs: agent(s) {extra[:5]} are not eligible (alive, age > 0) but received edges'))
+        fails.append((dict(oracle='random-degree-eligible', network=cls, _agents=extra), f'{cls}.add_pairs: agent(s) {extra[:5]} are not eligible (alive, age > 0) but received edges'))
     nc = [n for n in cfg['networks'] if n['type'] == 'random']
     if nc and isinstance(nc[0]['n_contacts'], int):
         lo, hi = nc[0]['n_contacts'] // 2, -(-nc[0]['n_contacts'] // 2)
         wrong = [u for u in born if not (lo <= c1.get(u, 0) <= hi)]
         if wrong:
-            fails.append((dict(oracle='random-degree-count', network=cls),
+            fails.append((dict(oracle='random-degree-count', network=cls, _agents=wrong),
                           f"{cls}.add_pairs: eligible agent {wrong[0]} has {c1.get(wrong[0], 0)} half-edges, requested {nc[0]['n_contacts']}/2 (rounded)"))
     return fails
 
 
 def oracle_lifetimes(events, snaps, cfg):
-    """ track edges of dur-carrying, non-maternal networks from append to disappearance """
+    """ Track every edge of a duration-carrying network from its append to its disappearance, in the recorded order of
+        events: an edge of stated duration d (in the NETWORK's time unit) that has been through k end_pairs() calls of a
+        network whose own timestep is dt_net is present iff k == 0 or k * dt_net < d (both endpoints still active). """
     fails = []
-    dt = cfg['dt']
-    snap_by = {}
-    for s in snaps:
-        snap_by[(s['net'], s['ti'])] = s
     for netname in set(ev['net'] for ev in events):
         evs = [ev for ev in events if ev['net'] == netname]
         cls = evs[0]['cls']; kind = KINDS.get(cls)
         if kind not in ('random', 'erdos', 'mf', 'msm', 'embedding'): continue
-        # creation step of each appended edge: number of end_pairs calls so far (init_post append = step 0)
-        nend = 0; born_edges = []
+        nend = 0; tracked = []; dt_net = None
         for ev in evs:
-            if ev['op'] == 'end': nend += 1
-            if ev['op'] == 'append' and not ev['err'] and 'dur' in ev['new']:
+            if ev['op'] == 'end':
+                nend += 1; dt_net = ev['dt']
+            elif ev['op'] == 'append' and not ev['err'] and 'dur' in ev['new']:
                 for a, b, d in zip(np.asarray(ev['new']['p1']).astype(int).tolist(), np.asarray(ev['new']['p2']).astype(int).tolist(),
                                    np.asarray(ev['new']['dur'], dtype=float).tolist()):
-                    born_edges.append((nend, a, b, d))
-        tis = sorted(ti for (nm, ti) in snap_by if nm == netname)
-        for ti in tis:
-            s = snap_by[(netname, ti)]
-            au = set(int(u) for u in s['people']['auids'])
-            got = {}
-            for a, b in zip(s['table']['p1'].astype(int).tolist(), s['table']['p2'].astype(int).tolist()):
-                if a in au and b in au:   # edges naming inactive agents are judged by the endpoint oracle
-                    got[(a, b)] = got.get((a, b), 0) + 1
-            exp = {}; amb = set()
-            for (s0, a, b, d) in born_edges:
-                k = (ti + 1) - s0   # number of end_pairs passes since the edge was appended
-                if k < 0: continue
-                if a not in au or b not in au: continue
-                if k > 0 and abs(k * dt - d) < 1e-9 * max(1, k): amb.add((a, b)); continue
-                # float accumulation: the code subtracts dt k times
-                if k > 0 and abs(k * dt - d) < 1e-6: amb.add((a, b)); continue
-                if k == 0 or k * dt < d:
-                    exp[(a, b)] = exp.get((a, b), 0) + 1
-            for key in set(got) | set(exp):
-                if key in amb: continue
-                if got.get(key, 0) != exp.get(key, 0):
-                    fails.append((dict(oracle='edge-lifetime', network=cls),
-                                  f"{cls} at ti={ti}: edge {key} is present {got.get(key, 0)} time(s) but {exp.get(key, 0)} edge(s) between these living agents have a stated duration reaching this step (dt={dt})"))
-                    return fails
+                    tracked.append((nend, a, b, d))
+            elif ev['op'] == 'snap':
+                if dt_net is None: continue
+                au = set(int(u) for u in ev['people']['auids'])
+                got = {}
+                for a, b in zip(ev['table']['p1'].astype(int).tolist(), ev['table']['p2'].astype(int).tolist()):
+                    if a in au and b in au: got[(a, b)] = got.get((a, b), 0) + 1
+                exp = {}; amb = set()
+                for (s0, a, b, d) in tracked:
+                    k = nend - s0
+                    if a not in au or b not in au: continue
+                    if k > 0 and abs(k * dt_net - d) < 1e-6: amb.add((a, b)); continue
+                    if k == 0 or k * dt_net < d: exp[(a, b)] = exp.get((a, b), 0) + 1
+                for key in set(got) | set(exp):
+                    if key in amb: continue
+                    if got.get(key, 0) != exp.get(key, 0):
+                        fails.append((dict(oracle='edge-lifetime', network=cls),
+                                      f"{cls} at sim step {ev['ti']} (after {nend} network updates, network dt={dt_net}, sim dt={cfg['dt']}): edge {key} is present {got.get(key, 0)} time(s) but {exp.get(key, 0)} edge(s) between these agents have a stated duration reaching this update"))
+                        return fails
     return fails
 
 
@@ -616,7 +769,22 @@ def run_oracle(cfg):
     for s in snaps:
         fails += oracle_snapshot(s, None)
     fails += oracle_events(events, snaps, cfg)
-    return fails
+    return tag_config(fails, cfg)
+
+
+def tag_config(fails, cfg):
+    """ Add the distinguishing configuration class to the signature (a known finding must match nothing else): a failure of a
+        RandomNet whose n_contacts is a plain number stored on the parameter object is attributed to the filler slots only if
+        the one offending agent is uid 0 (the value the unfilled source slots keep). """
+    plain = any(n.get('plain') for n in cfg.get('networks', []))
+    out = []
+    for sig, what in fails:
+        sig = dict(sig)
+        agents = sig.pop('_agents', None)
+        if plain and sig.get('network') == 'RandomNet' and agents == [0]:
+            sig = dict(network='RandomNet', n_contacts='plain-number', defect='uid0-filler', oracle=sig['oracle'])
+        out.append((sig, what))
+    return out
 
 
 def direct_scenario(spec):
@@ -671,6 +839,7 @@ def variant_from_facts(ctx):
     def variant_of(kind):
         if kind == 'erdos': return 'asis' if facts.get('erdos_endpoints', 'positions') == 'positions' else 'spec'
         if kind == 'disk': return 'asis' if facts.get('disk_endpoints', 'positions') == 'positions' else 'spec'
+        if kind == 'randomplain': return 'asis' if facts.get('random_plain_counts', 'all-active') == 'all-active' else 'spec'
         return 'spec'
     return variant_of
 
@@ -681,10 +850,14 @@ def correspond(ctx):
     nsims = ctx.budget(14, 90)
     pool = ['random', 'mf', 'msm', 'embedding', 'erdos', 'disk', 'static', 'null', 'maternal', 'prepost']
     lines = []; checks = []
-    max_lines = ctx.budget(900, 9000)
+    max_lines = ctx.budget(1500, 9000)
     covered = {}
+    fam = fixed_families(ctx.rng)
+    cfgs = [c for _, c in fam]
+    ctx.notes['fixed_families'] = [nm for nm, _ in fam]
     for i in range(nsims):
-        cfg = gen_cfg(ctx.rng, force_net=pool[i % len(pool)] if i < len(pool) else None, thorough=ctx.thorough)
+        cfgs.append(gen_cfg(ctx.rng, force_net=pool[i % len(pool)] if i < len(pool) else None, thorough=ctx.thorough))
+    for cfg in cfgs:
         try:
             sim, events, snaps = run_recorded(cfg)
         except Exception as e:
@@ -695,7 +868,8 @@ def correspond(ctx):
         # sample events so that the driver input stays bounded: all events of the first steps, then every third
         items = []
         for j, ev in enumerate(events):
-            size = len(ev['pre']['p1'])
+            if ev['op'] == 'snap': continue
+            size = len(ev['pre']['p1']) if 'p1' in ev.get('pre', {}) else 0
             if size > 1500: continue
             if j < 40 or j % 3 == 0:
                 try:
@@ -704,9 +878,9 @@ def correspond(ctx):
                 except ValueError as e:
                     ctx.broke('correspondence', 'C14.encode', f"{ev['cls']}.{ev['op']}: {e}", data=dict(kind='sim', cfg=cfg))
         for s in snaps:
-            if len(s['table']['p1']) > 1500: continue
+            if 'table' not in s or len(s['table']['p1']) > 1500: continue
             ln = snap_line(s)
-            if ln: items.append((ln, ('snap', s['cls']), dict(kind='sim', cfg=cfg, op='check', net=s['cls'], ti=s['ti'])))
+            if ln: items.append((ln, ('snap', s['cls'], bool(s.get('plain'))), dict(kind='sim', cfg=cfg, op='check', net=s['cls'], ti=s['ti'])))
         for it in items:
             if len(lines) >= max_lines: break
             lines.append(it[0]); checks.append(it[1:])
@@ -751,7 +925,7 @@ def correspond(ctx):
             cls = chk[1]; kind = KINDS[cls]
             bits = dict(p.split('=') for p in ml.split()[1:])
             exp_active = '1'
-            if kind in ('erdos', 'disk') and variant_of(kind) == 'asis':
+            if (kind in ('erdos', 'disk') and variant_of(kind) == 'asis') or (chk[2] and variant_of('randomplain') == 'asis'):
                 exp_active = None   # positions: may or may not be active (known finding; judged by the oracle)
             bad = []
             if bits.get('wf') != '1': bad.append('columns of unequal length')
@@ -772,10 +946,13 @@ def correspond(ctx):
 def search(ctx):
     n = ctx.budget(16, 100)
     pool = ['erdos', 'disk', 'mf', 'random', 'embedding', 'msm', 'static', 'prepost', 'maternal', 'null']
+    cfgs = [c for _, c in fixed_families(ctx.rng)]
     for i in range(n):
         cfg = gen_cfg(ctx.rng, force_net=pool[i % len(pool)] if i < 2 * len(pool) else None, thorough=ctx.thorough)
-        if i < 2:   # make sure the known-finding replays are exercised: deaths on
+        if i < 2:   # deaths on for the position-sensitive classes
             cfg['demographics'] = [dict(type='deaths', death_rate=200)]
+        cfgs.append(cfg)
+    for cfg in cfgs:
         try:
             fails = run_oracle(cfg)
         except Exception as e:
